@@ -80,6 +80,34 @@ def names_loaded(node) -> Set[str]:
     return {n.id for n in ast.walk(node) if isinstance(n, ast.Name) and isinstance(n.ctx, ast.Load)}
 
 
+def function_scope_stores(node):
+    """(name, node) for every binding that belongs to the enclosing function scope: comprehension targets and lambda parameters live in
+    scopes of their own and are skipped"""
+    out = []
+
+    def walk(n, in_comp_target=False):
+        if isinstance(n, (ast.ListComp, ast.SetComp, ast.GeneratorExp, ast.DictComp)):
+            for g in n.generators:
+                walk(g.iter)
+                for c in g.ifs:
+                    walk(c)
+            if isinstance(n, ast.DictComp):
+                walk(n.key)
+                walk(n.value)
+            else:
+                walk(n.elt)
+            return
+        if isinstance(n, ast.Lambda):
+            walk(n.body)
+            return
+        if isinstance(n, ast.Name) and isinstance(n.ctx, (ast.Store, ast.Del)):
+            out.append((n.id, n))
+        for c in ast.iter_child_nodes(n):
+            walk(c)
+    walk(node)
+    return out
+
+
 def names_stored(node) -> Set[str]:
     out = set()
     for n in ast.walk(node):
@@ -96,6 +124,10 @@ def names_stored(node) -> Set[str]:
 class _ExprNorm(ast.NodeTransformer):
     def visit_Call(self, node):
         self.generic_visit(node)
+        # frozenset({...}) / set([...]) of constants -> a sorted set display (tables hoisted to module level)
+        if isinstance(node.func, ast.Name) and node.func.id in ("set", "frozenset") and len(node.args) == 1 and not node.keywords \
+                and isinstance(node.args[0], (ast.Set, ast.List, ast.Tuple)) and node.args[0].elts and all(isinstance(e, ast.Constant) for e in node.args[0].elts):
+            return ast.copy_location(ast.Set(elts=sorted(node.args[0].elts, key=lambda e: repr(e.value))), node)
         # N1: "<literal>".format(...)
         if isinstance(node.func, ast.Attribute) and node.func.attr == "format" and isinstance(node.func.value, ast.Constant) \
                 and isinstance(node.func.value.value, str) and not any(isinstance(a, ast.Starred) for a in node.args) \
@@ -145,7 +177,20 @@ class _ExprNorm(ast.NodeTransformer):
         self.generic_visit(node)
         # N5: x if not c else y -> y if c else x
         if isinstance(node.test, ast.UnaryOp) and isinstance(node.test.op, ast.Not):
-            return ast.copy_location(ast.IfExp(test=node.test.operand, body=node.orelse, orelse=node.body), node)
+            node = ast.copy_location(ast.IfExp(test=node.test.operand, body=node.orelse, orelse=node.body), node)
+        # True if c else False -> c ; False if c else True -> not c   (only ever used as tests by the rules)
+        def const(e, v):
+            return isinstance(e, ast.Constant) and e.value is v
+        if const(node.body, True) and const(node.orelse, False):
+            return node.test
+        if const(node.body, False) and const(node.orelse, True):
+            return ast.copy_location(ast.UnaryOp(op=ast.Not(), operand=node.test), node)
+        return node
+
+    def visit_Set(self, node):
+        self.generic_visit(node)
+        if all(isinstance(e, ast.Constant) for e in node.elts):
+            node.elts = sorted(node.elts, key=lambda e: repr(e.value))
         return node
 
     def visit_BinOp(self, node):
@@ -289,6 +334,32 @@ def norm_block(stmts: list) -> list:
         else:
             split.append(s)
     stmts = split
+    # N7: for (a, b) in ((x1, y1), (x2, y2)): body   ->   body[a:=x1, b:=y1] ; body[a:=x2, b:=y2]      (literal rows, no break / continue)
+    unrolled = []
+    for s in stmts:
+        if isinstance(s, ast.For) and not s.orelse and isinstance(s.iter, (ast.Tuple, ast.List)) and 1 <= len(s.iter.elts) <= 8 \
+                and not any(isinstance(n, (ast.Break, ast.Continue)) for b in s.body for n in ast.walk(b)):
+            tnames = [t.id for t in s.target.elts] if isinstance(s.target, ast.Tuple) and all(isinstance(t, ast.Name) for t in s.target.elts) else \
+                ([s.target.id] if isinstance(s.target, ast.Name) else None)
+            rows = []
+            if tnames is not None:
+                for row in s.iter.elts:
+                    if len(tnames) == 1 and not isinstance(s.target, ast.Tuple):
+                        rows.append([row])
+                    elif isinstance(row, (ast.Tuple, ast.List)) and len(row.elts) == len(tnames):
+                        rows.append(list(row.elts))
+                    else:
+                        rows = None
+                        break
+            body_binds = set().union(*[names_stored(b) for b in s.body]) if s.body else set()
+            if tnames is not None and rows and not (set(tnames) & body_binds):
+                for row in rows:
+                    m = dict(zip(tnames, row))
+                    for b in s.body:
+                        unrolled.append(subst(b, m))
+                continue
+        unrolled.append(s)
+    stmts = unrolled
     # recurse first
     for s in stmts:
         for f in ("body", "orelse", "finalbody"):
@@ -402,10 +473,10 @@ def ssa_straightline(stmts: list, params: Set[str]) -> list:
         if a is not None:
             top_defs[a[0]] = top_defs.get(a[0], 0) + 1
     all_defs: Dict[str, int] = {}
+    for name, _n in function_scope_stores(ast.Module(body=stmts, type_ignores=[])):
+        all_defs[name] = all_defs.get(name, 0) + 1
     for n in ast.walk(ast.Module(body=stmts, type_ignores=[])):
-        if isinstance(n, ast.Name) and isinstance(n.ctx, (ast.Store, ast.Del)):
-            all_defs[n.id] = all_defs.get(n.id, 0) + 1
-        elif isinstance(n, ast.arg):
+        if isinstance(n, ast.arg) and not isinstance(n, ast.Lambda):
             all_defs[n.arg] = all_defs.get(n.arg, 0) + 10
     multi = {x for x, k in top_defs.items() if k >= 2 and all_defs.get(x, 0) == k and x not in params}
     if not multi:
@@ -478,10 +549,11 @@ def forward_subst(stmts: list, keep: Set[str], params: Set[str], _top=True, _cou
     parameter, not in `keep`) and substitute e for x in what follows."""
     whole = ast.Module(body=stmts, type_ignores=[])
     counts: Dict[str, int] = {} if _counts is None else _counts
+    if _counts is None:
+        for name, _n in function_scope_stores(whole):
+            counts[name] = counts.get(name, 0) + 1
     for n in (ast.walk(whole) if _counts is None else ()):
-        if isinstance(n, ast.Name) and isinstance(n.ctx, (ast.Store, ast.Del)):
-            counts[n.id] = counts.get(n.id, 0) + 1
-        elif isinstance(n, (ast.FunctionDef, ast.AsyncFunctionDef, ast.ClassDef)):
+        if isinstance(n, (ast.FunctionDef, ast.AsyncFunctionDef, ast.ClassDef)):
             counts[n.name] = counts.get(n.name, 0) + 1
         elif isinstance(n, ast.AugAssign) and isinstance(n.target, ast.Name):
             counts[n.target.id] = counts.get(n.target.id, 0) + 1
@@ -532,6 +604,38 @@ def forward_subst(stmts: list, keep: Set[str], params: Set[str], _top=True, _cou
 
 
 # ---------------------------------------------------------------------------------------------------------
+
+class _AlphaComps(ast.NodeTransformer):
+    """comprehension variables -> _c<depth> / _c<depth>_<i>: their spelling is never meaningful"""
+
+    def __init__(self):
+        self.depth = 0
+
+    def _comp(self, node):
+        self.depth += 1
+        mapping = {}
+        for gi, g in enumerate(node.generators):
+            k = 0
+            for n in ast.walk(g.target):
+                if isinstance(n, ast.Name) and n.id not in mapping:
+                    tag = f"_c{self.depth}" + (f"_{gi}" if gi else "") + (f"{'abcdefgh'[k]}" if k else "")
+                    mapping[n.id] = tag
+                    k += 1
+
+        class R(ast.NodeTransformer):
+            def visit_Name(self, n):
+                if n.id in mapping:
+                    return ast.copy_location(ast.Name(id=mapping[n.id], ctx=n.ctx), n)
+                return n
+        first_iter = node.generators[0].iter
+        node = R().visit(node)
+        node.generators[0].iter = first_iter      # evaluated in the enclosing scope
+        self.generic_visit(node)
+        self.depth -= 1
+        return node
+
+    visit_ListComp = visit_SetComp = visit_GeneratorExp = visit_DictComp = _comp
+
 
 _UNIQUE: Dict[int, Set[str]] = {}
 
@@ -671,6 +775,7 @@ class Normalizer:
             if ast.dump(fn) == before:
                 break
         fn = canon_globals(self.pm, fn)
+        fn = _AlphaComps().visit(fn)
         ast.fix_missing_locations(fn)
         self._cache[key] = fn
         return fn
